@@ -24,7 +24,10 @@ RULE = ("(a) every label assignment over a 2-letter (quick) / 3-letter "
         "ladder: blocks with exactly k distinct labels, k in {1,2,3,4,5,16,"
         "17,256,257,65536,65537}, cubic and non-cubic, 1 and 3 channels, "
         "repeated tables and tables differing only above bit 32; (c) shapes "
-        "{1..5}^3, (9,5,3), (16,16,16) filled with i mod m. Input arrays are handed over in seven "
+        "{1..5}^3, (9,5,3), (16,16,16) filled with i mod m; (d) four chunks of "
+        "all-distinct labels whose encoding exceeds 16 MiB, reaches past word "
+        "offset 2^24 with its values, or would need a lookup table past 2^24 "
+        "(must be refused), checked with a vectorised spec decoder. Input arrays are handed over in seven "
         "forms (C, Fortran, the moveaxis view volume conversion produces, "
         "strided, a narrower unsigned dtype, big-endian, a wider dtype - "
         "which may be refused -, uint64 labels >= 2^32 for a uint32 dataset - which must be refused), cycling through the enumeration. One evaluation = "
@@ -300,7 +303,78 @@ def units(tier):
     for i in range(0, len(rest), 40):
         for dtype in ("uint32", "uint64"):
             u.append({"kind": "gen", "gens": rest[i:i + 40], "dtype": dtype})
+    for k in range(len(BIG_CASES)):
+        u.append({"kind": "big", "index": k})
     return u
+
+
+# chunks whose encoding crosses the format's 2^24-word (64 MiB) lookup-table
+# offset limit or the 16 MiB mark: (shape zyx, block, dtype, must_refuse)
+BIG_CASES = [
+    ((128, 128, 128), (64, 64, 64), "uint64", False),    # > 16 MiB/channel
+    ((64, 64, 1408), (64, 64, 64), "uint64", False),     # values past 2^24
+    ((64, 64, 1472), (64, 64, 64), "uint64", True),      # table past 2^24
+    ((96, 96, 96), (32, 32, 32), "uint32", False),
+]
+
+
+def _eval_big(col, shape, block, dtype, must_refuse):
+    """all-distinct labels (every block needs a full 32-bit table, nothing
+    can be shared): the encoding is as large as the format allows"""
+    from neuroglancer_scripts.chunk_encoding import (
+        CompressedSegmentationEncoder,
+    )
+    Z, Y, X = shape
+    case = {"kind": "big", "dtype": dtype, "shape_zyx": list(shape),
+            "block": list(block), "generator": "all-distinct",
+            "cubic_block": True}
+    n = Z * Y * X
+    hi = 2 ** 32 - 1 if dtype == "uint32" else 2 ** 64 - 1
+    ref = (np.arange(n, dtype=np.uint64) * np.uint64(2654435761)
+           % np.uint64(hi)).astype(dtype)
+    # distinct within every block is what matters; make them distinct overall
+    ref = (np.argsort(np.argsort(ref, kind="stable"), kind="stable")
+           .astype(dtype) * np.dtype(dtype).type(3)
+           + np.dtype(dtype).type(hi // 2)).reshape(1, Z, Y, X)
+    enc = CompressedSegmentationEncoder(dtype, 1, list(block))
+    try:
+        buf = enc.encode(ref)
+    except Exception as exc:
+        if must_refuse:
+            col.ev(1, 1, "ok/refused-beyond-format-limit")
+        else:
+            col.ev(1, 1, "encode-exception")
+            col.violation("C02/encode/exception/%s/big" % type(exc).__name__,
+                          case, "encoded chunk", repr(exc)[:300])
+        return
+    ok = True
+    item = 4 if dtype == "uint32" else 8
+    try:
+        dec = cseg_spec.decode_np(bytes(buf), 1, shape, block, item)
+        if not np.array_equal(dec, ref):
+            ok = False
+            col.violation("C02/spec-decoder/wrong-labels/big", case,
+                          "the original labels", "%d voxels differ" % int(
+                              np.count_nonzero(dec != ref)))
+    except cseg_spec.SpecError as exc:
+        ok = False
+        col.violation("C02/format/%s/big" % exc.tag, case,
+                      "well-formed file (or a refusal: a lookup table "
+                      "beyond word offset 2^24 cannot be addressed)"
+                      if must_refuse else "well-formed file", str(exc)[:300])
+    try:
+        back = enc.decode(bytes(buf), (X, Y, Z))
+        if not np.array_equal(back, ref):
+            ok = False
+            col.violation("C02/package-decoder/wrong-labels/big", case,
+                          "the original labels", "%d voxels differ" % int(
+                              np.count_nonzero(back != ref)))
+    except Exception as exc:
+        ok = False
+        col.violation("C02/package-decoder/exception/%s/big"
+                      % type(exc).__name__, case, "the array",
+                      repr(exc)[:300])
+    col.ev(1, 1, "ok/big" if ok else "bad/big")
 
 
 def space(tier):
@@ -313,6 +387,12 @@ def space(tier):
 
 def run_unit(u):
     col = Collector()
+    if u["kind"] == "big":
+        shape, block, dtype, refuse = BIG_CASES[u["index"]]
+        _eval_big(col, shape, block, dtype, refuse)
+        col.sample({"kind": "big", "dtype": dtype, "shape_zyx": list(shape),
+                    "block": list(block)})
+        return col.result()
     if u["kind"] == "all":
         shape, dtype = tuple(u["shape"]), u["dtype"]
         n = shape[0] * shape[1] * shape[2]
@@ -342,6 +422,11 @@ def run_unit(u):
 
 def replay(case):
     col = Collector()
+    if case.get("kind") == "big":
+        for shape, block, dtype, refuse in BIG_CASES:
+            if list(shape) == case["shape_zyx"] and dtype == case["dtype"]:
+                _eval_big(col, shape, block, dtype, refuse)
+        return col.records()
     if "generator" in case:
         g = case["generator"]
         shape, block, chans = _gen_values(g, case["dtype"])
